@@ -142,11 +142,11 @@ def run_case(case, answer_within=3.0):
         dest.add_supported_context(CT)
         dest_server = dest.start_server(("127.0.0.1", 0), block=False, evt_handlers=[(evt.EVT_C_STORE, dest_store)])
         dest_port[0] = dest_server.socket.getsockname()[1]
-    obs = {"svc": svc, "n": n, "pos": pos, "k": k, "tmo": bool(case.get("tmo", True)), "enc": bool(case.get("enc", False)), "raises": bool(case.get("raises", False)), "final_status": -1, "rp": False, "t_rp": -1.0, "peer_saw": "", "reached": False, "queued": False}
+    obs = {"svc": svc, "n": n, "pos": pos, "k": k, "tmo": bool(case.get("tmo", True)), "enc": bool(case.get("enc", False)), "q": int(case.get("q", 0)), "raises": bool(case.get("raises", False)), "final_status": -1, "rp": False, "t_rp": -1.0, "peer_saw": "", "reached": False, "queued": False}
     peer = None
     try:
         peer = RawPeer(port, [(VERIF_UID, ["1.2.840.10008.1.2"]), (FIND, ["1.2.840.10008.1.2"]), (GET, ["1.2.840.10008.1.2"]), (MOVE, ["1.2.840.10008.1.2"]),
-                              (CT, ["1.2.840.10008.1.2.1" if case.get("enc") else "1.2.840.10008.1.2"])], roles=[(CT, True, True), (VERIF_UID, True, True)])
+                              (CT, ["1.2.840.10008.1.2.1" if case.get("enc") else "1.2.840.10008.1.2"])], roles=[(CT, True, True), (VERIF_UID, True, True), (FIND, True, True)])
         if peer.associate() != "assoc_ac":
             obs["peer_saw"] = "no-accept"
             return obs
@@ -174,7 +174,19 @@ def run_case(case, answer_within=3.0):
             gate.resume.set()
 
         ascu_thread = None
-        if svc == "ascu":
+        if svc == "ascu" and case.get("q"):
+            # this side's own multi-response request, its caller taking the responses slowly
+            def slow_find():
+                ident = Dataset()
+                ident.QueryRetrieveLevel, ident.PatientID = "PATIENT", "*"
+                got = []
+                for st, _ in acc.send_c_find(ident, FIND):
+                    got.append(int(st.Status) if st and "Status" in st else -1)
+                    time.sleep(0.4)
+                notes.append(("afind_statuses", str(got)))
+            ascu_thread = threading.Thread(target=slow_find, daemon=True)
+            ascu_thread.start()
+        elif svc == "ascu":
             ascu_thread = threading.Thread(target=lambda: notes.append(("ascu_status", str(acc.send_c_echo()))), daemon=True)
             ascu_thread.start()
         elif svc != "none":
@@ -212,6 +224,21 @@ def run_case(case, answer_within=3.0):
                         peer.send_dimse(rsp, cx_id=ev[2])
                     except OSError:
                         pass
+                elif name == "C_FIND" and p.MessageIDBeingRespondedTo is None and svc == "ascu":
+                    # two Pending responses and, right behind them, our own A-RELEASE-RQ
+                    from io import BytesIO
+                    from pynetdicom.dimse_primitives import C_FIND
+                    from pynetdicom.dsutils import encode
+                    for i in (1, 2):
+                        ds = Dataset()
+                        ds.QueryRetrieveLevel, ds.PatientID = "PATIENT", str(i)
+                        rsp = C_FIND()
+                        rsp.MessageIDBeingRespondedTo, rsp.AffectedSOPClassUID, rsp.Status = p.MessageID, p.AffectedSOPClassUID, 0xFF00
+                        rsp.Identifier = BytesIO(encode(ds, True, True))
+                        peer.send_dimse(rsp, cx_id=ev[2])
+                    obs["reached"] = True
+                    send_release()
+                    continue
                 elif name == "C_ECHO" and p.MessageIDBeingRespondedTo is None:
                     if svc == "ascu" and pos == "ascu_wait" and not released_sent[0]:
                         obs["reached"] = True
